@@ -28,7 +28,7 @@ MANIFEST_ENTRY = {
         " BufferedReader.seek is in addition translated from the source text into Lean on every run and proved equal to the model's seek (tie_seek)."),
     "level_note": (
         "Trusted: Lean kernel (+propext, Classical.choice, Quot.sound), the correspondence harness and "
-        "compiled driver, io.BytesIO as the file, model of seek/read as drop/take. Window explicit and inside the file."),
+        "compiled driver, io.BytesIO as the file, model of seek/read as drop/take. Window explicit and inside the file; the in-memory constructor BufferedReader(None, data=...) is checked against the same model (window (0, len), buffersize len). Windows of 2^31..2^64 bytes are exercised over a virtual file against the slice oracle only (the driver materialises its file; the theorems quantify over every Nat position). The whole-file form size=None (size discovered while reading) is outside the property's quantifier and not modelled."),
     "technique": "Lean 4 proof (induction over operation list, cache-coherence invariant) + model/implementation correspondence",
 }
 PROP_FILES = ["DashLive/Props/C20.lean", "DashLive/Props/GenTieBufReader.lean"]
